@@ -22,7 +22,11 @@
   Two protocols:
    `asFound`  — the code in /repo: `_save_to_disk` = remove + open("wb") + dump (in place); marker written in place right
                 after sl.save, BEFORE energy_history_<base> and minisanity_history_<base>; histories written in place.
-   `repaired` — fixes/C25_atomic_marker_and_files.diff: every file via temp + os.replace; marker written last.
+   `atomicOnly` — fixes/C25_atomic_marker_and_files.diff: every file via temp + os.replace; marker written last.
+                (crash safe for strategy `all`; strategy `latest` still has a window, see Props/C25.lean)
+   `repaired` — additionally fixes/C25_latest_invalidate_marker.diff: with strategy `latest` the marker is REMOVED before the
+                files latest.* are overwritten (a crash in between makes the resumed run start from scratch), and written
+                again when everything of the iteration is in place.
 -/
 import NiftyVerif.Model.CrashFS
 namespace NiftyVerif.CrashCl
@@ -53,7 +57,7 @@ inductive Path where
   deriving DecidableEq, Repr
 
 inductive Proto where
-  | asFound | repaired
+  | asFound | atomicOnly | repaired
   deriving DecidableEq, Repr
 
 inductive Err where
@@ -91,12 +95,14 @@ def inplaceSave (p : Path) (c : Bytes) : List (Op Path) := Op.remove p :: writeF
 def saveOne (proto : Proto) (p t : Path) (c : Bytes) : List (Op Path) :=
   match proto with
   | .asFound => inplaceSave p c
+  | .atomicOnly => atomicWrite p t c
   | .repaired => atomicWrite p t c
 
 /-- `_pickle_save_values`: in place as found, temp + replace when repaired -/
 def saveValues (proto : Proto) (p t : Path) (c : Bytes) : List (Op Path) :=
   match proto with
   | .asFound => writeFile p c
+  | .atomicOnly => atomicWrite p t c
   | .repaired => atomicWrite p t c
 
 /-- `ResidualSampleList.save(base, overwrite=True)`: unlink the "next" sample, the samples in order, then the mean -/
@@ -108,13 +114,20 @@ def saveSamples {S : Type} (sys : Sys S) (proto : Proto) (b : Base) (s : S) : Li
 def saveMarker (proto : Proto) (c : Bytes) : List (Op Path) :=
   match proto with
   | .asFound => writeFile .marker c
+  | .atomicOnly => atomicWrite .marker .markerTmp c
   | .repaired => atomicWrite .marker .markerTmp c
+
+/-- `_invalidate_last_finished_iteration()`: only in the repaired protocol and only for strategy `latest` -/
+def invalidate (proto : Proto) (strat : Strategy) : List (Op Path) :=
+  match proto, strat with
+  | .repaired, .latest => [Op.remove .marker]
+  | _, _ => []
 
 /-- part of iteration `j` before `_minisanity` loads the previous minisanity history -/
 def iterOpsA {S : Type} (sys : Sys S) (proto : Proto) (strat : Strategy) (j : Nat) (s' : S) : List (Op Path) :=
   let b := baseOf strat j
-  saveSamples sys proto b s' ++
-    (match proto with | .asFound => saveMarker proto (sys.digits j) | .repaired => []) ++
+  invalidate proto strat ++ saveSamples sys proto b s' ++
+    (match proto with | .asFound => saveMarker proto (sys.digits j) | _ => []) ++
     saveValues proto (.ehist b) (.ehistTmp b) (sys.encE j) ++
     appendFile .sanity (sys.msgS j)
 
@@ -122,7 +135,7 @@ def iterOpsA {S : Type} (sys : Sys S) (proto : Proto) (strat : Strategy) (j : Na
 def iterOpsB {S : Type} (sys : Sys S) (proto : Proto) (strat : Strategy) (j : Nat) : List (Op Path) :=
   let b := baseOf strat j
   saveValues proto (.mhist b) (.mhistTmp b) (sys.encM j) ++
-    (match proto with | .asFound => [] | .repaired => saveMarker proto (sys.digits j)) ++
+    (match proto with | .asFound => [] | _ => saveMarker proto (sys.digits j)) ++
     appendFile .counting (sys.msgC j)
 
 /-- the sample files `_list_local_sample_files` finds: `<base>.0 … <base>.(c-1)` for the consecutive count `c`
